@@ -817,3 +817,92 @@ class PathDependentPayoffRepresentation(Lemma):
 
 
 UNITS += [PathDependentPayoffRepresentation()]
+
+
+class ControlsFollowTheProcessRepresentation(Lemma):
+    """Engine.initialisation of BOTH engines (real bodies; the process / statistics set-up abstract): the priced product AND
+    every control-variate product are set up (Product.update) for the representation of the process the paths come from,
+    before the controls' value functions are bound (Configuration.initialisation) -- a control on another underlying than
+    the priced product's is otherwise valued in the identity representation on a logarithmic path."""
+    prop = "C17"
+    cases = ("standard", "multilevel")
+
+    def __init__(self):
+        self.name = "property:controls-are-set-up-for-the-process-representation"
+
+    def prove(self, vc, which):
+        nm = f"{self.name}[{which}]"
+        it = vc.interp
+        log = []
+        LOG = vc.enum(PR + "ProcessRepresentation", "LOG")
+        it.hooks["rpylib.product.product:Product.update"] = lambda it_, f, b: log.append(("update", b["self"].fields.get("tag"), b["process_representation"]))
+        it.hooks["rpylib.montecarlo.configuration:Configuration.initialisation"] = lambda it_, f, b: log.append(("bind",))
+        for fq in ("rpylib.product.underlying:Underlying.check_consistency", "rpylib.process.process:Process.initialisation", "rpylib.process.process:Process.pre_computation",
+                   "rpylib.process.coupling.couplingmarkovchain:CouplingMarkovChain.initialisation", "rpylib.process.coupling.couplingmarkovchain:CouplingMarkovChain.pre_computation",
+                   "rpylib.numerical.cosmethod:COSPricer.__init__"):
+            it.hooks[fq] = lambda it_, f, b: None
+        it.hooks["rpylib.montecarlo.path:create_path"] = lambda it_, f, b: None
+        it.hooks["rpylib.montecarlo.statistic.statistic:create_mlmc_statistics"] = lambda it_, f, b: None
+        it.hooks["rpylib.montecarlo.statistic.statistic:create_mc_statistics"] = lambda it_, f, b: None
+        it.hooks["rpylib.montecarlo.multilevel.engine:helper_create_fun"] = lambda it_, f, b: None
+        it.hooks["rpylib.model.model:Model.dimension"] = lambda it_, f, b: 1
+        it.hooks["rpylib.model.model:Model.dimension_model"] = lambda it_, f, b: 1
+        it.hooks["rpylib.process.process:Process.dimension"] = lambda it_, f, b: 1
+        mkp = lambda tag: vc.obj("rpylib.product.product:Product", tag=tag, maturity=1.0, payoff=vc.obj("rpylib.product.payoff:Payoff"), payoff_underlying=vc.obj(UND + "Underlying"))
+        priced, c1, c2 = mkp("priced"), mkp("control1"), mkp("control2")
+        cv = vc.obj("rpylib.product.product:ControlVariates", products=[c1, c2], prices=[0.0, 0.0], nb_cvs=2, _underlying_functions=[])
+        model = vc.obj("rpylib.model.model:Model", process_representation=LOG)
+        proc = vc.obj("rpylib.process.process:Process", process_representation=LOG, model=model, deterministic_path=None)
+        if which == "standard":
+            cfg = vc.obj("rpylib.montecarlo.configuration:ConfigurationStandard", mc_paths=3, nb_of_processes=1, control_variates=cv, activate_spot_statistics=False)
+            eng = vc.obj("rpylib.montecarlo.standard.engine:Engine", configuration=cfg, process=proc, path_manager=None, statistics=None)
+            vc.method(eng, "initialisation", 3, priced)
+        else:
+            cfg = vc.obj("rpylib.montecarlo.configuration:ConfigurationMultiLevel", initial_mc_paths=3, initial_level=2, nb_of_processes=1, control_variates=cv)
+            cp = vc.obj("rpylib.process.coupling.couplingmarkovchain:CouplingMarkovChain", fine_process=proc, model=model)
+            eng = vc.obj("rpylib.montecarlo.multilevel.engine:Engine", configuration=cfg, coupling_process=cp, path_managers=[], statistics=None)
+            vc.method(eng, "initialisation", priced)
+        bind = next((i for i, e in enumerate(log) if e[0] == "bind"), len(log))
+        before = [e for e in log[:bind] if e[0] == "update"]
+        for tag in ("priced", "control1", "control2"):
+            vc.check(nm + f"::{tag}-product-is-set-up-for-the-process-representation-before-the-controls-are-bound",
+                     any(e[1] == tag and e[2] is LOG for e in before))
+
+    def replay(self, model, clause, which):
+        import warnings
+        import logging
+        from rpylib.distribution.sampling import SamplingMethod
+        from rpylib.grid.spatial import CTMCUniformGrid
+        from rpylib.model.utils import create_exponential_of_levy_model, ModelType
+        from rpylib.product.payoff import Forward, Vanilla, PayoffType
+        from rpylib.product.product import Product, ControlVariates
+        from rpylib.product.underlying import Spot, Asian, Discretisation
+        with warnings.catch_warnings():
+            warnings.simplefilter("ignore")
+            logging.disable(logging.WARNING)
+            try:
+                m = create_exponential_of_levy_model(ModelType.HEM)(spot=100.0, r=0.05, d=0.02, sigma=0.1, p=0.6, eta1=25.0, eta2=40.0, intensity=5.0)
+                product = Product(Asian(Discretisation.MONTHLY), Vanilla(100.0, PayoffType.CALL), 0.25)
+                ctrl = Product(Spot(), Forward(strike=100.0), 0.25)
+                cv = ControlVariates([ctrl], [float(np.exp(-0.05 * 0.25) * (100 * np.exp(0.03 * 0.25) - 100))])
+                if which == "standard":
+                    from rpylib.montecarlo.configuration import ConfigurationStandard
+                    from rpylib.montecarlo.standard.engine import Engine
+                    from rpylib.process.levyprocess import LevyProcess
+                    st = Engine(ConfigurationStandard(mc_paths=50, seed=3, nb_of_processes=1, control_variates=cv), LevyProcess(m)).price(product)
+                    vals = np.ravel(st._control_variates_statistics.stats)
+                else:
+                    from rpylib.montecarlo.configuration import ConfigurationMultiLevel, compute_convergence_rates
+                    from rpylib.montecarlo.multilevel.engine import Engine
+                    from rpylib.process.coupling.couplingmarkovchain import CouplingMarkovChain
+                    cfg = ConfigurationMultiLevel(convergence_rates=compute_convergence_rates(m.blumenthal_getoor_index()), initial_level=2, maximum_level=2, initial_mc_paths=50, seed=3,
+                                                  nb_of_processes=1, control_variates=cv)
+                    st = Engine(cfg, CouplingMarkovChain(model=m, method=SamplingMethod.ALIAS, grid=CTMCUniformGrid(h=0.2, model=m))).price_with_constant_mc_paths_and_level(product)
+                    vals = np.ravel(st.mc_statistics[0]._control_variates_statistics.stats)
+                # a forward struck at the spot over 3 months: discounted S_T - 100 stays within a few tens; log(S_T) - 100 is near -95
+                return (bool(np.median(vals) < -50.0), {"engine": which, "control": "forward on the spot, strike 100", "first_control_values": vals[:4].tolist(), "median": float(np.median(vals))})
+            finally:
+                logging.disable(logging.NOTSET)
+
+
+UNITS += [ControlsFollowTheProcessRepresentation()]
